@@ -138,7 +138,7 @@ class ModelProc:
 PROP_BINS = {
     "C01": ["monitor", "algo"], "C02": ["monitor"], "C03": ["monitor", "algo"], "C04": ["monitor"], "C12": ["monitor"],
     "C05": ["monitor", "resolver"], "C06": ["monitor", "cursor"],
-    "C08": ["codec"], "C09": ["store"], "C11": ["state", "stateguard"], "C13": ["path"], "C16": ["prov"], "C17": ["sched"],
+    "C08": ["codec", "monitor"], "C09": ["store"], "C11": ["state", "stateguard"], "C13": ["path"], "C16": ["prov"], "C17": ["sched"],
     "C18": ["loop", "notify"], "C19": ["cache"], "C20": ["smart"], "C15": ["thread", "monitor"], "C14": ["event", "monitor"], "C10": ["fault", "monitor"], "C07": ["crash", "monitor"],
     "ALGO": ["algo"],
 }
